@@ -28,6 +28,37 @@ structure RangeSite where
   summary : Summary
 deriving DecidableEq, Repr
 
+/-- what a loop over a Go map appends to the slice that is sorted afterwards -/
+inductive SortElem
+  | key    -- the range key variable itself
+  | value  -- the range value variable itself
+  | other  -- anything else (a field, a method result, a composite)
+deriving DecidableEq, Repr
+
+/-- what the sort of a slice collected in map order compares -/
+inductive CmpShape
+  | whole    -- the elements themselves, of string or integer type (`sort.Strings`, `S[i] < S[j]`,
+             --   `strings.Compare(a, b)`): two elements that tie are equal
+  | derived  -- the elements seen through a function, method, field or conversion, or a comparator the
+             --   translator cannot read: different elements may tie
+deriving DecidableEq, Repr
+
+/-- one sort of a slice that a `for … range <map>` loop collected: the site (as in `RangeSite`), the
+slice, what was appended, the sorting function, whether it is a stable one, the comparator's shape and
+the normalised text of its result expressions -/
+structure SortFact where
+  file : String
+  fn : String
+  expr : String
+  ord : Nat
+  target : String
+  elem : SortElem
+  sorter : String
+  stable : Bool
+  cmp : CmpShape
+  cmpText : String
+deriving DecidableEq, Repr
+
 /-- how a package-level variable is written outside `init` -/
 inductive WriteKind
   | assign | index | field | incdec | addr | method | deref | oscall
